@@ -227,6 +227,7 @@ def run(ck):
     abort.check(ck, P, roots, "ABORT/c-api", abort_table.JUSTIFIED, api_fns=api, label="C API")
     validation(ck, P)
     setdict_status_rule(ck, P)
+    set_header_plain_wrap(ck, P)
     from .. import guards as _gct
     _gct.c_truthiness(ck, P)
     from .. import taint as _t
@@ -309,3 +310,23 @@ def setdict_status_rule(ck, P, R="ATOM/setdict-status"):
 # session 5 (round 11)
 EXPLANATION = EXPLANATION + " " + (
     'ATOM/setdict-status (round 11): deflate::set_dictionary tests `status` only under wrap == 1 (zlib-ng accepts a dictionary for a raw stream at any block boundary).')
+
+
+def set_header_plain_wrap(ck, P, R="ATOM/set-header-wrap"):
+    """deflateSetHeader: `if (s->wrap != 2) return Z_STREAM_ERROR` - the stored `wrap` itself.  deflate() negates `wrap` once the
+    trailer is out, and zlib-ng refuses a header for such a finished stream; a test of |wrap| (or of any function of wrap)
+    accepts it."""
+    from .. import atoms as _atoms, sig as _sig
+    f = P.fn(Z + "deflate::set_header")
+    if not ck.anchor("fn deflate::set_header", f):
+        return
+    ck.use_fn(f)
+    n = 0
+    for a, b, tb in _atoms.all_atoms(f):
+        s = _sig.sig(a, f)
+        if "wrap" in s.names and s.rel in ("Eq", "Ne") and 2 in s.consts:
+            n += 1
+            ck.decide(not s.calls, R, "set_header:wrap#%d" % n, "compares the stored wrap with 2",
+                      "deflate::set_header tests %s of wrap against 2 instead of the stored value: a gzip stream that has written its "
+                      "trailer (wrap negated) is accepted where zlib-ng returns Z_STREAM_ERROR" % sorted(s.calls), where(f))
+    ck.floor(R, n, 1)
